@@ -1,5 +1,6 @@
 import SnaxVerif.Drv.Basic
 import SnaxVerif.Model.StridePattern
+import SnaxVerif.Model.StridePatternZ
 import SnaxVerif.Model.PackBits
 import SnaxVerif.Model.PackOps
 import SnaxVerif.Model.AffineTransform
@@ -50,6 +51,16 @@ def spCanon : Handler := fun j => do
   let size := p.loops.foldl (fun a l => a * l.1) 1
   return Json.mkObj [("verify", Json.bool p.verify), ("canon", patToJson p.canonicalize),
     ("addrs", if size ≤ 100000 then jList jInt p.addrs else Json.null)]
+
+/-- args: {"ub": [int], "ts", "ss"} (any sign) -> {"verify", "canon", "addrs" | null} -/
+def spCanonZ : Handler := fun j => do
+  let p : Stride.PatternZ := { ub := ← listOf int (← field j "ub"), ts := ← listOf int (← field j "ts"),
+                               ss := ← listOf int (← field j "ss") }
+  let size : Nat := p.loops.foldl (fun (a : Nat) (l : Stride.LoopZ) => a * l.1.toNat) 1
+  let c := p.canonicalize
+  return Json.mkObj [("verify", Json.bool p.verify),
+    ("canon", Json.mkObj [("ub", jList jInt c.ub), ("ts", jList jInt c.ts), ("ss", jList jInt c.ss)]),
+    ("addrs", if size ≤ 100000 then jList jInt (Stride.offsZ p.loops) else Json.null)]
 
 /-! ### pack_bitlist -/
 
@@ -318,7 +329,7 @@ def apHandler : Handler := fun j => do
     return Json.mkObj [("built", apToJson p), ("canon", apToJson canon), ("inner", inner)]
 
 def handlers : List (String × Handler) :=
-  [("c19.canon", canon), ("c19.eval", evalPts), ("c19.sp_canon", spCanon), ("c19.pack", pack), ("c19.pack_ops", packOps),
+  [("c19.canon", canon), ("c19.eval", evalPts), ("c19.sp_canon", spCanon), ("c19.sp_canon_z", spCanonZ), ("c19.pack", pack), ("c19.pack_ops", packOps),
    ("c19.at_tomap", atToMap), ("c19.at_frommap", atFromMap), ("c19.at_compose", atCompose),
    ("c19.at_compose_eval", atComposeEval), ("c19.at_eval", atEval), ("c19.sp_syntax", spSyntax),
    ("c19.sp_parse", spParse), ("c19.cfg_syntax", cfgSyntax), ("c19.cfg_parse", cfgParse),
